@@ -467,7 +467,8 @@ func (doc *T) derefPaths(paths map[string]*PathItem, refNameResolver RefNameReso
 		if ops == nil {
 			continue
 		}
-		pathIsExternal := isExternalRef(ops.Ref, parentIsExternal)
+		// the path items of an external callback are external even though they carry no $ref of their own
+		pathIsExternal := isExternalRef(ops.Ref, parentIsExternal) || parentIsExternal
 		// inline full operations
 		ops.Ref = ""
 
